@@ -8,9 +8,9 @@ ASSUME = [
 ]
 
 
-def mc_cfg(dom, maxargs, maxops, view=True, export=False):
-    return ("CONSTANTS D = {%s}  MaxArgs = %d  MaxCnt = 2  MaxOps = %d\nINIT Init\nNEXT Next\n%s%s\nCHECK_DEADLOCK FALSE\n" % (
-        ", ".join(str(i) for i in range(1, dom + 1)), maxargs, maxops,
+def mc_cfg(dom, maxargs, maxops, view=True, export=False, prefix="NoPrefix", allownew=True):
+    return ("CONSTANTS D = {%s}  MaxArgs = %d  MaxCnt = 2  MaxOps = %d  Prefix <- %s  AllowNew = %s\nINIT Init\nNEXT Next\n%s%s\nCHECK_DEADLOCK FALSE\n" % (
+        ", ".join(str(i) for i in range(1, dom + 1)), maxargs, maxops, prefix, str(allownew).upper(),
         "VIEW View\nINVARIANTS TypeOK EachOrdered Algebra\nPROPERTY Persistent" if not export else "INVARIANTS Export",
         ""))
 
@@ -37,18 +37,21 @@ def run(r):
     # (1) design level: exhaustive exploration of histories, invariants + append-only action property
     mc = r.tlc_must_pass("IntDataMC", cfg_text=mc_cfg(3, 3, 4 if thorough else 3), workers=core.NCPU, timeout=1500)
     # (2) model -> code: every history of the bounded family, with the model's expected observations
-    gens = [(2, 3, 3)] + ([(2, 2, 4), (3, 2, 3)] if thorough else [])
+    # plain histories, and continuations of a prefix of values with shared history / spare capacity (branching from one receiver)
+    gens = [(2, 3, 3, "NoPrefix", True), (4, 0, 2, "SharedPrefix", False)] + \
+        ([(2, 2, 4, "NoPrefix", True), (3, 2, 3, "NoPrefix", True), (4, 0, 3, "SharedPrefix", False)] if thorough else [])
     nhist = 0
-    for (dom, maxargs, maxops) in gens:
-        g = r.tlc_must_pass("IntDataMC", cfg_text=mc_cfg(dom, maxargs, maxops, export=True), workers=core.NCPU, timeout=1500)
-        exp = r.path("hist-%d-%d-%d.ndjson" % (dom, maxargs, maxops))
+    for (dom, maxargs, maxops, prefix, allownew) in gens:
+        g = r.tlc_must_pass("IntDataMC", cfg_text=mc_cfg(dom, maxargs, maxops, export=True, prefix=prefix, allownew=allownew),
+                            workers=core.NCPU, timeout=1500)
+        exp = r.path("hist-%d-%d-%d-%s.ndjson" % (dom, maxargs, maxops, prefix))
         core.write_ndjson(exp, g.prints)
         nhist += len(g.prints)
         if not g.prints:
             raise core.Inconclusive("TLC exported no history")
         rep = r.path("replay.json")
         r.pvh("intdata", "replay", **{"in": exp, "out": rep})
-        judge_replay(r, rep, "IntDataMC export D=1..%d MaxArgs=%d MaxOps=%d" % (dom, maxargs, maxops))
+        judge_replay(r, rep, "IntDataMC export D=1..%d MaxArgs=%d MaxOps=%d prefix=%s" % (dom, maxargs, maxops, prefix))
     r.nontrivial += nhist
     # (3) code -> model: random long histories recorded from the real types, validated by TLC
     ntr, nops = (120, 60) if thorough else (24, 40)
